@@ -5,10 +5,16 @@ use std::marker::PhantomData;
 use std::mem;
 use std::ptr;
 use std::sync::atomic::Ordering::*;
+#[cfg(not(multiqueue2_verif))]
 use std::sync::atomic::{fence, AtomicUsize};
+#[cfg(multiqueue2_verif)]
+use crate::verif_hooks::{fence, AtomicUsize};
 use std::sync::mpsc::{RecvError, SendError, TryRecvError, TrySendError};
 use std::sync::Arc;
+#[cfg(not(multiqueue2_verif))]
 use std::thread::yield_now;
+#[cfg(multiqueue2_verif)]
+use crate::verif_hooks::yield_now;
 
 use crate::alloc;
 use crate::atomicsignal::LoadedSignal;
@@ -22,7 +28,10 @@ use crate::read_cursor::{ReadCursor, Reader};
 
 extern crate atomic_utilities;
 extern crate futures;
+#[cfg(not(multiqueue2_verif))]
 extern crate parking_lot;
+#[cfg(multiqueue2_verif)]
+use crate::verif_hooks::pl as parking_lot;
 extern crate smallvec;
 
 use self::futures::task::{current, Task};
@@ -902,7 +911,10 @@ impl FutWait {
 
     pub fn fut_wait(&self, seq: usize, at: &AtomicUsize, wc: &AtomicUsize) -> bool {
         if self.spin(seq, at, wc) && self.park(seq, at, wc) {
+            #[cfg(not(multiqueue2_verif))]
             ::std::thread::sleep(::std::time::Duration::from_millis(100));
+            #[cfg(multiqueue2_verif)]
+            crate::verif_hooks::sleep(::std::time::Duration::from_millis(100));
             true
         } else {
             false
